@@ -10,6 +10,7 @@
 import XMT.DecodeSafe
 import XMT.DecodeDns
 import XMT.DecodeStream
+import XMT.FragHostile
 
 namespace XMT.Props.C04
 open XMT XMT.Decode
@@ -195,6 +196,28 @@ theorem streamBytes_alloc_partial (s : Codec.Stream) : Stream.bytesAlloc s ≤ F
 -- (`unpackLoop_total_alloc`) and the channel-or-close decision (`handleSwitch_total`) are proved; the
 -- arms run on the real code against a fake connServer/connHost (ops `recv`, `procmulti`, `resolve`).
 -- OPEN: B64 transform `Read` and CBK `Read` framing — oracle only (ops `b64`, `cbk`, `rp`, `handle`).
+
+/-! ### the fragment dispatcher under a hostile peer (state across packets) -/
+
+/-- ANY sequence of fragment packets (any IDs, jobs, groups, counts, positions, empty or not, any
+flag bits), from ANY reassembly state: the dispatcher with Go's index expressions evaluated as Go does
+(`c.data[0]` in `cluster.add` and after the sort in `cluster.done` panic on an empty slice) never
+reaches the panic value; it is the panic-free function of XMT.Frag. -/
+theorem fragDispatch_total (fs : Frag.Frags) (ns : List Frag.Pkt) :
+    FragHostile.recvAllP fs ns = .ok (Frag.recvAll fs ns) :=
+  FragHostile.recvAllP_ok ns fs
+
+/-- the reassembly state a connection history leaves behind holds at most one stored fragment per
+fragment received (each stored fragment is bytes the peer sent: state in proportion to input) -/
+theorem fragDispatch_state_bounded (ns : List Frag.Pkt) :
+    FragHostile.held (Frag.recvAll [] ns).1 ≤ ns.length := by
+  have := FragHostile.recvAll_held ns [] (by simp [FragHostile.keys])
+  simpa [FragHostile.held] using this
+
+/-- the panic value is not decoration: with the emptiness guard of `cluster.done` folded into the
+count test (seeded change C04-1) a group made only of empty fragments reaches it -/
+theorem fragDispatch_folded_guard_panics :
+    FragHostile.doneFolded { data := [], max := 1, e := 2, c := 0 } = .panic := rfl
 
 /-! ### non-vacuity -/
 
